@@ -71,7 +71,9 @@ def run(ctx, anchors=None):
                  "the gate is exactly !allow_disabled_opcodes && (opcode == ...)",
                  "the gate is conditioned on %s (expected only !allow_disabled_opcodes)" % (extras or "nothing"))
     if gate is None:
-        raise AnalysisBroken("R17: disabled-opcode gate not found in the operation step")
+        ctx.fail("R17.4", "gate-present", opstep.loc(), "the operation step has no disabled-opcode test of the form `opcode == OP_CAT || ...` before the executed/unexecuted "
+                 "test: without --allow-disabled-opcodes a disabled opcode inside an unexecuted branch is no longer rejected")
+        return
     gnode, gate_labels = gate
     ctx.site(len(gate_labels))
     # ---- dispatcher group
